@@ -176,15 +176,19 @@ def register(PROPS):
     )
 
     PROPS["C16"] = dict(
-        level_text="Machine-checked proofs (Lean 4): the graph DTO builder terminates and shows exactly the nodes reachable from the roots (C16.graph_reachable, fuel bound |seen| <= table size), "
-                   "its edges are the table's (graph_edges) and walking it evaluates the diagram (graph_walk); a parse error is stored and shown as an error and blocks solving "
-                   "(parse_error_reported, error_visible, error_blocks_solve, parseNaive_error); a task that ended is not listed as running (running_cleared, not_listed_after_finish). "
-                   "Tie to the code: generated ADFs (n <= 6, both parsing strategies, unparseable and panicking codes) are submitted to the REAL server, solved with all six strategies in random order; "
-                   "stored/returned models are compared handle-exactly with the executable library models run on the stored node table, and judged against the brute-force semantics (Spec/WebSem.lean); "
-                   "every returned graph is checked (node set, edges, labels, walk = condition under every completion of the shown model) by the Lean driver.",
-        level_note="Trusted: Lean kernel + {propext, Classical.choice, Quot.sound}; that the answers are the definitional ones rests on C01-C05/C09/C14 for the library models and is observed "
-                   "against the brute-force specification on every explored problem; hybrid parsing's node numbering (biodivine) is adopted from the stored table after a semantic check.",
-        technique="Lean 4 proof (graph builder, task life cycle) + correspondence check through HTTP + brute-force specification of the ADF semantics + verified-by-evaluation graph checker",
+        level_text="Machine-checked proofs (Lean 4): STORED ANSWERS - for naive parsing of the submitted text and for any stored table that is well formed with handles denoting the conditions (the hybrid case: "
+                   "what the run-time wfCheck / isoCheck / stored-ADF check establish for the adopted table), for EVERY one of the six strategies the solve task of the server model, run on the ADF rebuilt from "
+                   "the stored node list, stores - as a multiset of three-valued interpretations - exactly the specification's answer for the conditions of the submitted code (C16.stored_answers_exact, "
+                   "stored_answers_exact_any_table, stored_answers_exact_driver_model for the very function the driver runs, stored_answers_definitional against the Prop-level definitions; StableNogood under "
+                   "the halting-within-10^6-iterations hypothesis, which holds for every large bound: stored_answers_exact_every_large_bound); composition of C14's rebuild theorem, C09 and the exactness "
+                   "theorems of C01-C05. GRAPHS - the DTO builder terminates and shows exactly the nodes reachable from the roots (graph_reachable), its edges are the table's (graph_edges) and walking it "
+                   "evaluates the diagram (graph_walk). A parse error is stored and shown as an error and blocks solving (parse_error_reported, error_visible, error_blocks_solve); a task that ended is not "
+                   "listed as running (running_cleared, not_listed_after_finish). Tie to the code: generated ADFs (1-6 statements and a wide family of 11-14, both parsing strategies, unparseable and "
+                   "panicking codes) are submitted to the REAL server and solved with all six strategies in random order; stored/returned models are compared handle-exactly with the model run on the stored "
+                   "node table and judged against the brute-force semantics; every returned graph is checked (node set, edges, labels per statement name, walk) by the Lean driver.",
+        level_note="Trusted: Lean kernel + {propext, Classical.choice, Quot.sound}; actix, timeouts, MongoDB (stub) assumed; hybrid parsing's node numbering (biodivine) is adopted from the stored table after the "
+                   "run-time checks; KNOWN FINDING D9 (late background write keyed by (name, username)).",
+        technique="Lean 4 proof (composition of rebuild + compilation + semantics theorems for the stored answers; graph builder; task life cycle) + correspondence check through HTTP + brute-force specification + graph checker",
         jobs=[], extra=web_extra, replay=web_replay, trusted=WEB_TRUSTED,
         rule="one problem per history cycling through 16 families (random formulas, attack cycles, self-support, chains, missing/duplicate ac, undeclared atoms, garbage, whitespace, pre-study instances), "
              "1-6 statements, both parsing strategies alternating; all six strategies in random order with repeated GETs and repeated solves; non-trivial = distinct history with >= 1 completed task",
